@@ -39,8 +39,10 @@ from units import c20_iters as I
 
 NAME = "c12_analyzable"
 ENGINE = "verus"
-PROPS = ("C12", "C11")
+PROPS = ("C12", "C11", "C03")     # C03: duplicate keys break non-malleability (C03 quantifies over scripts passing the default sanity rules)
+FP = ("C12", "C11")               # body obligations of the functions that have nothing to do with C03
 P = ("C12",)
+PD = ("C12", "C03")               # the duplicate-key clauses
 
 ANALYZE = "src/miniscript/analyzable.rs"
 MSMOD = _tree.MSMOD
@@ -56,7 +58,9 @@ DROPPED = [
     "drain_pk_iter_ is that loop, VERIFIED here against the contract of MsPkIter::next that units/c20_iters.py proves; result = the drained items as `Drained<Pk>`); "
     "`.count()` = Drained::count (verified: number of drained items); `.collect::<BTreeSet<_>>()` -> `.collect_btreeset_()` and `.len()` on it: TRUSTED std semantics "
     "`BTreeSet::len of the collected set == cardinality of the set of drained items`; `.take(n)` / `.skip(n)` (not in the current text) are modelled with std semantics so that "
-    "such an edit is judged, any other adaptor -> UNDECIDED",
+    "such an edit is judged; `.collect::<Vec<_>>()` (also `let x: Vec<_> = ..collect()`) -> `.collect_vec_()` = the drained items as `KeyVec<Pk>` with len / is_empty (verified) and "
+    "dedup / sort / sort_unstable / contains (TRUSTED std specs: dedup removes CONSECUTIVE repeats, sort leaves an ascending permutation); HashSet is treated as BTreeSet "
+    "(cardinality); any other adaptor / method (windows, indexing, for loops over the vector, ..) -> UNDECIDED",
     "has_repeated_keys: vstd's Vec has no capacity precondition on push, so `count()` overflowing usize (more than usize::MAX keys) is outside the model",
     "contains_raw_pkh: `self.iter().any(|ms| BODY)` -> the loop that std's Iterator::any is (R14; /verif text with its invariant, over Iter::next by the contract "
     "units/c20_iters.py proves) calling the lambda-lifted closure `contains_raw_pkh__pred(ms)` (R16: BODY verbatim)",
@@ -240,6 +244,140 @@ impl<T> Drained<T> {
 }
 """
 
+VEC_MODEL = r"""
+// ================================================================================================
+// std: Vec<T> collected from the drained items, with dedup / sort / contains  (other ways of looking for duplicates)
+// ================================================================================================
+// Vec::dedup removes CONSECUTIVE repeated elements (keeps the first of every run) -- std doc; as a recursive definition
+spec fn dedup_consecutive<T>(s: Seq<T>) -> Seq<T>
+    decreases s.len(),
+{
+    if s.len() <= 1 { s } else {
+        let d = dedup_consecutive(s.drop_last());
+        if s[s.len() - 2] == s.last() { d } else { d.push(s.last()) }
+    }
+}
+// the element type's `Ord::cmp(a, b) != Greater`
+uninterp spec fn ord_le<T>(a: T, b: T) -> bool;
+// ASSUMED (same assumption as for BTreeSet): Ord is a total order and `Equal` means equality of values
+proof fn axiom_ord_total_order<T>()
+    ensures
+        forall|a: T, b: T| #![trigger ord_le(a, b)] ord_le(a, b) || ord_le(b, a),
+        forall|a: T, b: T| #![trigger ord_le(a, b), ord_le(b, a)] ord_le(a, b) && ord_le(b, a) ==> a == b,
+        forall|a: T, b: T, c: T| #![trigger ord_le(a, b), ord_le(b, c)] ord_le(a, b) && ord_le(b, c) ==> ord_le(a, c),
+{ admit(); }
+spec fn sorted_le<T>(s: Seq<T>) -> bool {
+    forall|i: int, j: int| #![trigger s[i], s[j]] 0 <= i <= j < s.len() ==> ord_le(s[i], s[j])
+}
+// equal values stand next to each other
+spec fn runs_contiguous<T>(s: Seq<T>) -> bool {
+    forall|i: int, j: int, k: int| #![trigger s[i], s[j], s[k]] 0 <= i < j < k < s.len() && s[i] == s[k] ==> s[j] == s[i]
+}
+struct KeyVec<T> { v: Vec<T> }
+impl<T> KeyVec<T> {
+    fn len(&self) -> (r: usize) ensures r == self.v@.len() { self.v.len() }
+    fn is_empty(&self) -> (r: bool) ensures r == (self.v@.len() == 0) { self.v.len() == 0 }
+    #[verifier::external_body]
+    fn dedup(&mut self) ensures final(self).v@ == dedup_consecutive(old(self).v@) { unimplemented!() }
+    // slice::sort / sort_unstable: a permutation of the elements, ascending
+    #[verifier::external_body]
+    fn sort(&mut self) ensures final(self).v@.to_multiset() == old(self).v@.to_multiset(), sorted_le(final(self).v@) { unimplemented!() }
+    #[verifier::external_body]
+    fn sort_unstable(&mut self) ensures final(self).v@.to_multiset() == old(self).v@.to_multiset(), sorted_le(final(self).v@) { unimplemented!() }
+    #[verifier::external_body]
+    fn contains(&self, x: &T) -> (r: bool) ensures r == self.v@.contains(*x) { unimplemented!() }
+}
+impl<T> Drained<T> {
+    // Iterator::collect::<Vec<_>>(): the items, in order
+    fn collect_vec_(self) -> (r: KeyVec<T>) ensures r.v@ == self.items@ { KeyVec { v: self.items } }
+}
+"""
+
+LEMMA_SORT_DEDUP = r"""
+proof fn lemma_sorted_runs_contiguous<T>(s: Seq<T>)
+    requires sorted_le(s),
+    ensures runs_contiguous(s),
+{
+    axiom_ord_total_order::<T>();
+    assert forall|i: int, j: int, k: int| #![trigger s[i], s[j], s[k]] 0 <= i < j < k < s.len() && s[i] == s[k] implies s[j] == s[i] by {
+        assert(ord_le(s[i], s[j]) && ord_le(s[j], s[k]));
+    }
+}
+// when equal values stand next to each other, removing consecutive repeats leaves one element per distinct value
+proof fn lemma_dedup_of_contiguous_runs<T>(s: Seq<T>)
+    requires runs_contiguous(s),
+    ensures dedup_consecutive(s).len() == distinct_count(s),
+    decreases s.len(),
+{
+    if s.len() == 1 {
+        assert(s.drop_last().len() == 0);
+        assert(!s.drop_last().contains(s.last()));
+        assert(distinct_count(s.drop_last()) == 0);
+    } else if s.len() > 1 {
+        let p = s.drop_last();
+        let x = s.last();
+        let n = s.len() as int;
+        assert forall|i: int| 0 <= i < n - 1 implies p[i] == s[i] by {}
+        assert(runs_contiguous(p)) by {
+            assert forall|i: int, j: int, k: int| #![trigger p[i], p[j], p[k]] 0 <= i < j < k < p.len() && p[i] == p[k] implies p[j] == p[i] by {
+                assert(s[i] == s[k] ==> s[j] == s[i]);
+            }
+        }
+        lemma_dedup_of_contiguous_runs(p);
+        if s[n - 2] == x {
+            assert(p[n - 2] == x);
+            assert(p.contains(x));
+        } else if p.contains(x) {
+            let i = choose|i: int| 0 <= i < p.len() && p[i] == x;
+            assert(s[i] == s[n - 1]);
+            assert(i < n - 2);
+            assert(s[n - 2] == s[i]);       // runs_contiguous(s) at (i, n-2, n-1)
+            assert(false);
+        }
+    }
+}
+// a permutation has the same length and the same set of elements
+proof fn lemma_permutation_same_set<T>(s: Seq<T>, t: Seq<T>)
+    requires s.to_multiset() == t.to_multiset(),
+    ensures s.len() == t.len(), s.to_set() =~= t.to_set(),
+{
+    s.to_multiset_ensures();
+    t.to_multiset_ensures();
+    assert forall|a: T| s.to_set().contains(a) <==> t.to_set().contains(a) by {
+        assert(s.contains(a) <==> s.to_multiset().count(a) > 0);
+        assert(t.contains(a) <==> t.to_multiset().count(a) > 0);
+    }
+}
+// everything the analysis may use about the drained key sequence `s`, whichever std route it takes:
+//   set route:        |set(s)| != |s|  <==>  a key occurs twice
+//   sort+dedup route: for every sorted permutation t of s, |dedup(t)| = |set(s)|
+// (NOTHING is said about dedup of an UNSORTED sequence: it only removes adjacent repeats)
+proof fn lemma_sort_dedup_route<T>(s: Seq<T>, t: Seq<T>)
+    requires t.to_multiset() == s.to_multiset(), sorted_le(t),
+    ensures t.len() == s.len(), s.to_set().finite(), dedup_consecutive(t).len() == s.to_set().len(),
+{
+    lemma_permutation_same_set(s, t);
+    lemma_sorted_runs_contiguous(t);
+    lemma_dedup_of_contiguous_runs(t);
+    lemma_distinct_count_is_set_cardinality(t);
+    lemma_distinct_count_is_set_cardinality(s);
+    assert(s.to_set() == t.to_set());
+}
+spec fn sort_dedup_route_ok<T>(s: Seq<T>, t: Seq<T>) -> bool {
+    t.to_multiset() == s.to_multiset() && sorted_le(t) ==> t.len() == s.len() && dedup_consecutive(t).len() == s.to_set().len()
+}
+proof fn lemma_duplicate_detection_facts<T>(s: Seq<T>)
+    ensures
+        s.to_set().finite(), s.to_set().len() <= s.len(), s.to_set().len() != s.len() <==> has_dup(s),
+        forall|t: Seq<T>| #![trigger sorted_le(t)] sort_dedup_route_ok(s, t),
+{
+    lemma_set_smaller_iff_duplicate(s);
+    assert forall|t: Seq<T>| #![trigger sorted_le(t)] sort_dedup_route_ok(s, t) by {
+        if t.to_multiset() == s.to_multiset() && sorted_le(t) { lemma_sort_dedup_route(s, t); }
+    }
+}
+"""
+
 DRAIN = r"""
 // running the key iterator to exhaustion (what count / collect do): exactly the remaining keys, in order; terminates
 fn drain_pk_iter_<'a, Pk: MiniscriptKey, Ctx: ScriptContext>(it0: MsPkIter<'a, Pk, Ctx>) -> (out: Drained<Pk>)
@@ -319,7 +457,21 @@ def proved_contract(other, fq, unit):
 # rewrites
 # ----------------------------------------------------------------------------------------------------------------------
 R14_DRAIN = sub("R14-drain", r"\bself\s*\.iter_pk\(\)", "drain_pk_iter_(self.iter_pk())")
-R14_BTREESET = sub("R14-collect-btreeset", r"\.collect::<\s*BTreeSet<[^<>]*>\s*>\(\)", ".collect_btreeset_()", required=False)
+R14_SET = sub("R14-collect-set", r"\.collect::<\s*(?:BTreeSet|HashSet)<[^<>]*>\s*>\(\)", ".collect_btreeset_()", required=False)
+R14_VEC = sub("R14-collect-vec", r"\.collect::<\s*Vec<[^<>]*>\s*>\(\)", ".collect_vec_()", required=False)
+
+
+@rule("R14-collect-annotated")
+def annotated_collect(text):
+    """`let [mut] X: Vec<..> = E.collect();` / `: BTreeSet<..>` / `: HashSet<..>`  ->  `let [mut] X = E.collect_vec_();` / `.collect_btreeset_();`
+    (the annotation only selects the FromIterator impl; the model types are KeyVec / KeySet)."""
+    def one(m):
+        stmt = m.group(0)
+        if ".collect()" not in stmt:
+            return stmt
+        target = ".collect_vec_()" if m.group(3) == "Vec" else ".collect_btreeset_()"
+        return "let %s%s = %s" % (m.group(1) or "", m.group(2), m.group(4).replace(".collect()", target))
+    return re.sub(r"\blet\s+(mut\s+)?(\w+)\s*:\s*(Vec|BTreeSet|HashSet)<[^=;]*>\s*=\s*([^;]*;)", one, text)
 
 
 def at_body_start(ghost):
@@ -527,7 +679,13 @@ def build(repo):
              "std: `iter.collect::<BTreeSet<_>>().len()` is the number of DIFFERENT items the iterator yields = cardinality of the set of drained items; "
              "ASSUMES the key type's Ord / Eq agree with equality of values")
     vf.trust("Drained::take / Drained::skip (external_body)", "std Iterator::take / skip keep / drop a prefix; not called by the current text, present so that such an edit is judged")
-    vf.spec_obligation("compose::drain_pk_iter_", DRAIN, PROPS)
+    vf.raw(VEC_MODEL)
+    vf.trust("KeyVec<T>::dedup / sort / sort_unstable / contains (external_body), axiom_ord_total_order (admit)",
+             "std: Vec::dedup removes consecutive repeated elements (recursive spec dedup_consecutive); slice::sort / sort_unstable leave an ascending permutation; "
+             "Vec::contains; ASSUMES the element type's Ord is a total order whose Equal is equality of values (same assumption as for the set route). "
+             "Not called by the current text: present so that a refactor of has_repeated_keys over collect::<Vec<_>>() is JUDGED")
+    vf.spec_obligation("lemma::sort_dedup", LEMMA_SORT_DEDUP, PD)
+    vf.spec_obligation("compose::drain_pk_iter_", DRAIN, FP)
 
     # ---- callees by contract ---------------------------------------------------------------------------------------------------------------
     with vf.block("impl TimelockInfo"):
@@ -545,30 +703,30 @@ def build(repo):
     any = IterAny()
     with vf.block(MS_IMPL):
         # doc: "Whether all spend paths of miniscript require a signature" = the `s` property of the malleability type
-        vf.fn(ANALYZE, A + "requires_sig", qual="Miniscript", props=PROPS, contract=Contract(ensures=[
+        vf.fn(ANALYZE, A + "requires_sig", qual="Miniscript", props=FP, contract=Contract(ensures=[
             Clause("is_s_property", P, "r == self.ty.mall.signed"),
             Clause("is_the_sigless_switch_defect", P, "r == !d_sigless(*self)")]))
         # doc: "Whether the miniscript is [non-]malleable" = the `m` property
-        vf.fn(ANALYZE, A + "is_non_malleable", qual="Miniscript", props=PROPS, contract=Contract(ensures=[
+        vf.fn(ANALYZE, A + "is_non_malleable", qual="Miniscript", props=FP, contract=Contract(ensures=[
             Clause("is_m_property", P, "r == self.ty.mall.non_malleable"),
             Clause("is_the_malleability_switch_defect", P, "r == !d_malleable(*self)")]))
         # doc: "Whether the miniscript can exceed the resource limits (Opcodes, Stack limit etc)": the check that includes the satisfaction's resources
-        vf.fn(ANALYZE, A + "within_resource_limits", qual="Miniscript", props=PROPS, contract=Contract(ensures=[
+        vf.fn(ANALYZE, A + "within_resource_limits", qual="Miniscript", props=FP, contract=Contract(ensures=[
             Clause("is_local_validity_verdict", P, "r == Ctx::spec_local_valid(*self)")]))
         # doc: "Whether the miniscript contains a combination of timelocks"
-        vf.fn(ANALYZE, A + "has_mixed_timelocks", qual="Miniscript", props=PROPS, contract=Contract(ensures=[
+        vf.fn(ANALYZE, A + "has_mixed_timelocks", qual="Miniscript", props=FP, contract=Contract(ensures=[
             Clause("is_combination_flag", P, "r == self.ext.timelock_info.contains_combination"),
             Clause("is_the_mixed_time_locks_switch_defect", P, "r == d_mixed_locks(*self)")]))
         # doc: "Whether the miniscript has repeated Pk or Pkh"
         vf.fn(ANALYZE, A + "has_repeated_keys", qual="Miniscript", props=PROPS,
-              rewrites=[R14_DRAIN, R14_BTREESET,
-                        at_body_start("proof { lemma_set_smaller_iff_duplicate(keys_of_ms(*self)); }")],
+              rewrites=[R14_DRAIN, annotated_collect, R14_SET, R14_VEC,
+                        at_body_start("proof { lemma_duplicate_detection_facts(keys_of_ms(*self)); }")],
               contract=Contract(ensures=[
-                  Clause("true_iff_some_key_occurs_twice", P, "r <==> " + DUP % dict(m="*self")),
-                  Clause("false_iff_all_keys_distinct", P, "!r <==> " + DISTINCT % dict(m="*self")),
-                  Clause("is_duplicate_key_predicate", P, ASSUMED_THERE)]))
+                  Clause("true_iff_some_key_occurs_twice", PD, "r <==> " + DUP % dict(m="*self")),
+                  Clause("false_iff_all_keys_distinct", PD, "!r <==> " + DISTINCT % dict(m="*self")),
+                  Clause("is_duplicate_key_predicate", PD, ASSUMED_THERE)]))
         # doc: "Whether the given miniscript contains a raw pkh fragment"
-        reg = vf.fn(ANALYZE, A + "contains_raw_pkh", qual="Miniscript", props=PROPS, rewrites=[any],
+        reg = vf.fn(ANALYZE, A + "contains_raw_pkh", qual="Miniscript", props=FP, rewrites=[any],
                     contract=Contract(ensures=[
                         Clause("true_iff_some_node_is_raw_pkh", P, "r <==> exists|i: int| 0 <= i < preorder(*self).len() && (#[trigger] preorder(*self)[i]).node is RawPkH"),
                         Clause("is_the_raw_pkh_switch_defect", P, "r <==> " + SOME_RAW_PKH % dict(m="*self"))]))
@@ -577,7 +735,7 @@ def build(repo):
         vf.rewrites_used.append("R16-lambda-lift @ closure of contains_raw_pkh")
         vf.fn_text("Miniscript::contains_raw_pkh__pred", text, Contract(ensures=[
             Clause("tests_for_the_raw_pkh_fragment", P, "r == (%s.node is RawPkH)" % any.var)]),
-            PROPS, file=ANALYZE, lines=reg.lines(), anchor=A + "contains_raw_pkh closure |%s|" % any.var)
+            FP, file=ANALYZE, lines=reg.lines(), anchor=A + "contains_raw_pkh closure |%s|" % any.var)
 
     # ---- Part 2: end to end ------------------------------------------------------------------------------------------------------------------
     vf.raw(LAWS % dict(dup=DUP % dict(m="*ms"), distinct=DISTINCT % dict(m="*ms"), distinct_v=DISTINCT % dict(m="ms")))
